@@ -675,6 +675,104 @@ Section ConcP.
     intros Hb'. destruct (Nat.eq_dec t' t); [auto|]. exfalso. exact (H3 t' n Hb').
   Qed.
 
+  (** *** no deadlock: in every reachable state that is not finished some action is enabled *)
+  Definition conv (s : state) : Prop :=
+    forall t, mus _ _ s 0 = Some t -> locked (ph _ _ (thr _ _ s t)) = true /\ t < nthr _ _ s.
+
+  Lemma Step_conv : forall d s l s', conv s -> Step d s l s' -> conv s'.
+  Proof.
+    intros d s l s' Hc HS.
+    destruct HS as [t c dd rest Hlt Eth | t c r rest Hlt Eth Een | t c r rest Hlt Eth Een
+                   | t td w b Hlt Eth Hin | t td w Hlt Eth | t c r rest w b Hlt Eth
+                   | t c r rest b Hlt Eth Hfree | t td b Hlt Eth | t td b k Hlt Eth
+                   | t c r rest b Hlt Eth | t i rest p b Hlt Eth Hp | t i rest p b Hlt Eth Hp];
+      intros t' Hm; simpl in Hm |- *;
+      try solve [destruct (Hc t' Hm) as [Hl Hn]; destruct (Nat.eq_dec t' t) as [->|Hne];
+           [rewrite updf_eq; rewrite Eth in Hl; simpl in Hl; try discriminate; auto
+           | rewrite updf_neq by auto; auto]].
+    - (* Lock *) unfold updf in Hm; simpl in Hm. injection Hm as <-. rewrite updf_eq. simpl. auto.
+    - (* Unlock *) unfold updf in Hm; simpl in Hm. discriminate.
+    - (* Put *) destruct (Hc t' Hm) as [Hl Hn]. destruct (Nat.eq_dec t' t) as [->|Hne].
+      + rewrite Eth in Hl. destruct Hp; subst p; discriminate.
+      + rewrite updf_neq by auto. auto.
+    - (* Drop *) destruct (Hc t' Hm) as [Hl Hn]. destruct (Nat.eq_dec t' t) as [->|Hne].
+      + rewrite Eth in Hl. destruct Hp; subst p; discriminate.
+      + rewrite updf_neq by auto. auto.
+  Qed.
+
+  Lemma run_conv : forall d ls s s', conv s -> run (gf d) s ls = Some s' -> conv s'.
+  Proof.
+    intros d ls; induction ls as [|l ls IH]; intros s s' Hc Hrun; simpl in Hrun.
+    - inversion Hrun; subst; auto.
+    - destruct (step (gf d) s l) as [s1|] eqn:Es; [| discriminate].
+      apply step_Step in Es. eapply IH; [| exact Hrun]. eapply Step_conv; eauto.
+  Qed.
+
+  (** the thread that holds the mutex can always move *)
+  Lemma holder_moves : forall d s t, Inv s -> t < nthr _ _ s -> locked (ph _ _ (thr _ _ s t)) = true ->
+    exists l s', step (gf d) s l = Some s'.
+  Proof.
+    intros d s t [Hhead _ _ _ _ Hk] Hlt Hl.
+    assert (Hltb : (t <? nthr _ _ s) = true) by (apply Nat.ltb_lt; exact Hlt).
+    destruct (thr _ _ s t) as [td p] eqn:Eth. simpl in Hl.
+    pose proof (Hhead t) as Hh. rewrite Eth in Hh; simpl in Hh.
+    destruct p as [| | | |b k|b k|]; try discriminate.
+    - destruct (Hh ltac:(discriminate)) as (c & r & rest & -> & _).
+      destruct (Hk t b k) as [Hk1 _]. rewrite Eth in Hk1; simpl in Hk1. specialize (Hk1 eq_refl).
+      destruct k as [|[|k]]; [| | lia].
+      + exists (LWriteBegin t). unfold LoggerConc.step; simpl. rewrite Hltb, Eth; simpl. eexists; reflexivity.
+      + exists (LUnlock t). unfold LoggerConc.step; simpl. rewrite Hltb, Eth; simpl. eexists; reflexivity.
+    - exists (LWriteEnd t). unfold LoggerConc.step; simpl. rewrite Hltb, Eth; simpl. eexists; reflexivity.
+  Qed.
+
+  Theorem no_deadlock : forall f prog sched s, discipline f = true ->
+    run f (init prog) sched = Some s -> finished s = false ->
+    exists l s', step f s l = Some s'.
+  Proof.
+    intros f prog sched s Hd Hrun Hfin.
+    pose proof (reachable_inv f prog sched s Hd Hrun) as HI.
+    rewrite (discipline_gf f Hd) in Hrun |- *. set (d := drops_oversized f) in *.
+    assert (conv s) as Hc.
+    { eapply run_conv; [| exact Hrun]. intros t Hm; simpl in Hm; discriminate. }
+    unfold LoggerConc.finished in Hfin.
+    assert (exists t, t < nthr _ _ s /\ idle_done D R (thr _ _ s t) = false) as (t & Hlt & Hid).
+    { assert (forall l, forallb (fun t => idle_done D R (thr _ _ s t)) l = false ->
+                        exists t, In t l /\ idle_done D R (thr _ _ s t) = false) as Hex.
+      { induction l as [|x l IH]; simpl; intros Hf; [discriminate|].
+        destruct (idle_done D R (thr _ _ s x)) eqn:Ex; simpl in Hf.
+        - destruct (IH Hf) as (t & Hin & Ht). exists t; auto.
+        - exists x; auto. }
+      destruct (Hex _ Hfin) as (t & Hin & Ht). exists t. split; [apply in_seq in Hin; lia | exact Ht]. }
+    assert (Hltb : (t <? nthr _ _ s) = true) by (apply Nat.ltb_lt; exact Hlt).
+    pose proof HI as HI0.
+    destruct HI as [Hhead Hw Hown Hpool Hmu Hk].
+    destruct (thr _ _ s t) as [td p] eqn:Eth. unfold idle_done in Hid; simpl in Hid.
+    pose proof (Hhead t) as Hh. rewrite Eth in Hh; simpl in Hh.
+    pose proof (Hw t) as Hwt. rewrite Eth in Hwt; simpl in Hwt.
+    destruct p as [|w|w b|w b|b k|b k|b].
+    - destruct td as [|[c r|c dd] rest]; [discriminate| |].
+      + exists (LGate t). unfold LoggerConc.step; simpl. rewrite Hltb, Eth; simpl.
+        destruct (enabled r); eexists; reflexivity.
+      + exists (LDerive t). unfold LoggerConc.step; simpl. rewrite Hltb, Eth; simpl. eexists; reflexivity.
+    - exists (LPoolGet t None). unfold LoggerConc.step; simpl. rewrite Hltb, Eth; simpl. eexists; reflexivity.
+    - destruct (Hh ltac:(discriminate)) as (c & r & rest & -> & _).
+      exists (LFormat t). unfold LoggerConc.step; simpl. rewrite Hltb, Eth; simpl. eexists; reflexivity.
+    - simpl in Hwt; subst w. destruct (Hh ltac:(discriminate)) as (c & r & rest & -> & _).
+      destruct (mus _ _ s 0) as [t'|] eqn:Em.
+      + destruct (Hc t' Em) as [Hl' Hlt']. apply (holder_moves d s t'); auto.
+      + exists (LLock t). unfold LoggerConc.step; simpl. rewrite Hltb, Eth; simpl. unfold mu_of; simpl. rewrite Em.
+        eexists; reflexivity.
+    - apply (holder_moves d s t); [exact HI0 | auto | rewrite Eth; reflexivity].
+    - apply (holder_moves d s t); [exact HI0 | auto | rewrite Eth; reflexivity].
+    - destruct (Hh ltac:(discriminate)) as (c & r & rest & -> & _).
+      destruct (d && (max_buf <? bcap (bufs _ _ s b))%N) eqn:Ed.
+      + exists (LDrop t). unfold LoggerConc.step; simpl. rewrite Hltb, Eth; simpl. fold d. rewrite Ed. eexists; reflexivity.
+      + exists (LPoolPut t). unfold LoggerConc.step; simpl. rewrite Hltb, Eth; simpl. fold d.
+        assert ((negb d || (bcap (bufs _ _ s b) <=? max_buf)%N) = true) as ->.
+        { destruct d; simpl in *; [| reflexivity]. rewrite N.leb_le. rewrite N.ltb_ge in Ed. exact Ed. }
+        eexists; reflexivity.
+  Qed.
+
   Lemma conc_discipline_flags : forall x, conc_discipline x = true -> discipline (conc_flags x) = true.
   Proof. intros x H. unfold conc_discipline in H. apply andb_prop in H as [H _]. exact H. Qed.
 End ConcP.
